@@ -8,5 +8,5 @@ cp /repo/go.sum go.sum 2>/dev/null
 pkg="$1"; shift
 out=$(go test -vet=off -count=1 -timeout 20m "./$pkg" "$@" -v 2>&1)
 rc=$?
-echo "$out" | grep -E "^(BOUNDED|KNOWN-FINDING|--- FAIL|FAIL|ok|panic|\s+.*_test.go)"
+echo "$out" | grep -E "^(BOUNDED|KNOWN-FINDING|--- FAIL|FAIL|ok|panic|WARNING: DATA RACE|\s+.*_test.go)"
 exit $rc
